@@ -40,3 +40,16 @@ package stats
 //@   top-ensures fanRecorded && fanN == fanLen
 //@   loop 0:
 //@     invariant fanRecorded && i == fanLen - 1 - fanN && fanN >= 0 && i >= -1
+
+// Record (the helper every stage of the server loop goes through): exactly one event is recorded per call with a
+// trace info, under the event it was asked to record, with the error status exactly when an error was given.
+//@ ghost var recN int
+//@ func Record(ti, event, err)
+//@   props C19
+//@   abstract
+//@   noinline
+//@   modifies recN
+//@   ghostset-at-entry recN = 0
+//@   assert before Record: recN == 0 && arg1 == event && ((err != nil) == (arg2 == 3)) && ((err == nil) == (arg2 == 1))
+//@   ghostset after Record: recN = recN + 1
+//@   top-ensures ti != nil ==> recN == 1
